@@ -215,8 +215,12 @@ orc_parse_code (const char *code, OrcProgram ***programs, int *n_programs,
   }
 
   if (enable_errors) {
-    *errors = ORC_VECTOR_AS_TYPE (&parser->errors, OrcParseError);
     *n_errors = orc_vector_length (&parser->errors);
+    if (*n_errors > 0) {
+      /* orc_parse_error_freev() stops at a NULL entry */
+      orc_vector_append (&parser->errors, NULL);
+    }
+    *errors = ORC_VECTOR_AS_TYPE (&parser->errors, OrcParseError);
   }
 
   if (orc_vector_has_data (&parser->programs)) {
